@@ -193,6 +193,13 @@ class World:
             return hasattr(self.unit, hook)
         return hasattr(self.layers[name], hook)
 
+    def hook_raises(self, name, hook):
+        """is the generated hook of this layer one that raises (behaviour 'raise' / 'nie')?"""
+        for ld in self.spec['layers']:
+            if ld['name'] == name:
+                return (ld.get('hooks') or {}).get(hook) in ('raise', 'nie')
+        return False
+
     def full(self, name):
         return name if name == UNIT else LMOD + '.' + name
 
